@@ -71,6 +71,7 @@ type VC struct {
 	heap0shared map[string]Term
 	globalsUsed map[string]bool
 	canaries []*Obligation
+	panicEscapes int
 	explicitTargs []types.Type
 	lemmaPkg string
 	immutable map[string]bool
@@ -104,6 +105,7 @@ type Frame struct {
 	retBlk  *ssa.BasicBlock
 	retIdx  int
 	retInst *ssa.Call
+	retKind string
 	names   map[string]Val
 	depth   int
 	curLoopDec map[int]Term // loop ordinal -> variant value at loop head
@@ -121,6 +123,8 @@ type State struct {
 	panicking bool
 	ghostLocals map[string]Val
 	inQuant int
+	unwinding bool
+	curChanElem types.Type
 	dyn    map[string]dynInfo // interface value term -> concrete value it was made from (for devirtualisation)
 }
 
@@ -166,7 +170,7 @@ func (st *State) define(prefix string, t Term) Term {
 }
 
 func (st *State) fork() *State {
-	n := &State{vc: st.vc, lines: st.lines, heap0: st.heap0, old: st.old, panicking: st.panicking}
+	n := &State{vc: st.vc, lines: st.lines, heap0: st.heap0, old: st.old, panicking: st.panicking, unwinding: st.unwinding, curChanElem: st.curChanElem}
 	n.heap = make(map[string]Term, len(st.heap))
 	for k, v := range st.heap {
 		n.heap[k] = v
